@@ -329,7 +329,8 @@ def seed_acls(seed):
     return [
         ("ios", "", [f"remark = one", f"permit tcp host {ip(w + 1)} any eq 80 443",
                      "deny udp any object-group GRP eq 53 log", "remark = two", "permit icmp any any",
-                     f"permit ip {ip(w)} 0.0.0.3 any", "deny tcp any range 1000 2000 any gt 1023"]),
+                     f"permit ip {ip(w)} 0.0.0.3 any", "deny tcp any range 1000 2000 any gt 1023",
+                     "permit tcp any neq 25 any lt 1024"]),
         ("nxos", "= ", ["10 remark = one", f"20 permit tcp {ip(w)}/24 any eq 22",
                         "30 deny ip addrgroup GRP any", "40 remark = two", "50 permit ip any any",
                         "60 permit udp any any range 67 68"]),
